@@ -216,13 +216,19 @@ impl Model {
         let cur = self.current_layer();
         let mut v: Vec<usize> = vec![];
         if self.layer_stack_resolution {
+            // each layer is searched once, at its most recent position ("from most recently
+            // activated to oldest, then the base layer, then the first layer")
             for e in self.entries.iter().rev() {
                 if let Ent::Layer { idx, .. } = e {
-                    v.push(*idx);
+                    if !v.contains(idx) {
+                        v.push(*idx);
+                    }
                 }
             }
-            v.push(self.default_layer);
-            if self.delegate && cur != 0 && self.default_layer != 0 {
+            if !v.contains(&self.default_layer) {
+                v.push(self.default_layer);
+            }
+            if self.delegate && cur != 0 && self.default_layer != 0 && !v.contains(&0) {
                 v.push(0);
             }
         } else {
